@@ -570,3 +570,16 @@ MUTANTS += [
 }''')],
      'expect': {'C18': 'char'}},
 ]
+
+# ---- C14 FORMAT: value conversions (both callbacks changed alike: the sibling rule is silent) --------------------------------
+MUTANTS += [
+    {'name': 'c14_hex_upper_case', 'edits': [(P, 'printf("%02x", state->current_value.bytes_value.bptr[i]);', 'printf("%02X", state->current_value.bytes_value.bptr[i]);'),
+                                             (P, '"%02x", state->current_value.bytes_value.bptr[i]);', '"%02X", state->current_value.bytes_value.bptr[i]);')],
+     'expect': {'C14': 'FORMAT'}},
+    {'name': 'c14_integer_as_int', 'edits': [(P, 'printf("%" PRId64 "", state->current_value.integer_value);', 'printf("%d", (int) state->current_value.integer_value);'),
+                                             (P, '"%" PRId64 "", state->current_value.integer_value);', '"%d", (int) state->current_value.integer_value);')],
+     'expect': {'C14': 'FORMAT'}},
+    {'name': 'c14_bool_words_swapped', 'edits': [(P, 'printf("%s", (state->current_value.bool_value) ? "true" : "false");', 'printf("%s", (!state->current_value.bool_value) ? "true" : "false");'),
+                                                 (P, '"%s", (state->current_value.bool_value) ? "true" : "false");', '"%s", (!state->current_value.bool_value) ? "true" : "false");')],
+     'expect': {'C14': 'FORMAT'}},
+]
